@@ -841,6 +841,24 @@ func (s *State) evalBoolD(e *Expr, depth int) ISet {
 		switch {
 		case isIntExpr(x) && isIntExpr(y) && cmpBinOp(op):
 			d := s.linOf(x).add(s.linOf(y), -1) // x - y
+			if op == "==" || op == "!=" {
+				// c*(v/c) against v: decided by what is known of v % c
+				if xv, cv, ok := quotientTimesDivisor(d); ok {
+					rem := mkBin(token.REM, xv, mkConst(cv, xv.Typ), xv.Typ, xv.Typ)
+					r, has := s.rng[rem.Key]
+					if !has && s.an != nil && s.an.AtomHook != nil {
+						r, has = s.an.AtomHook(rem)
+					}
+					if has && !r.Empty() {
+						if z, isC := r.IsConst(); isC && z == 0 {
+							return isConst(b2i(op == "=="))
+						}
+						if !r.Contains(0) {
+							return isConst(b2i(op == "!="))
+						}
+					}
+				}
+			}
 			switch op {
 			case "<":
 				t := s.impliedGE(d.neg().add(linConst(1), -1)) // y-x-1>=0
@@ -1027,6 +1045,17 @@ func (s *State) assume(e *Expr, truth bool) {
 			default:
 				s.addFact(Fact{L: d, NE: true})
 			}
+			// c*(x/c) compared with x itself decides x % c
+			if op == "==" || op == "!=" {
+				if xv, cv, ok := quotientTimesDivisor(d); ok {
+					rem := mkBin(token.REM, xv, mkConst(cv, xv.Typ), xv.Typ, xv.Typ)
+					if (op == "==") == truth {
+						s.rng[rem.Key] = isConst(0)
+					} else if lo := s.rangeOf(xv).Lo(); lo != negInf && lo >= 0 {
+						s.rng[rem.Key] = isRange(1, cv-1)
+					}
+				}
+			}
 			// derived terms: x % m relation when x becomes constant etc. is
 			// handled by rangeOf on demand.
 		case (op == "==" || op == "!=") && (x.IsNil() || y.IsNil()):
@@ -1088,6 +1117,30 @@ func (s *State) assume(e *Expr, truth bool) {
 		return
 	}
 	s.rng[e.Key] = isConst(b2i(truth))
+}
+
+// quotientTimesDivisor recognises d = ±(c*(x/c) - x): the difference between a
+// value and its quotient by a positive constant multiplied back.
+func quotientTimesDivisor(d Lin) (x *Expr, c int64, ok bool) {
+	if d.C != 0 || len(d.T) != 2 {
+		return nil, 0, false
+	}
+	for k, coef := range d.T {
+		q := d.E[k]
+		if q == nil || q.Op != "bin" || q.binOp() != "/" || len(q.Args) != 2 {
+			continue
+		}
+		cv, isC := q.Args[1].IsConst()
+		if !isC || cv <= 1 || (coef != cv && coef != -cv) {
+			continue
+		}
+		for k2, coef2 := range d.T {
+			if k2 != k && k2 == q.Args[0].Key && coef2 == -coef/cv {
+				return q.Args[0], cv, true
+			}
+		}
+	}
+	return nil, 0, false
 }
 
 // ---- memory -----------------------------------------------------------------
